@@ -104,12 +104,13 @@ def effective_resnorm(cfg, j):
     return cfg.get("resnorm")
 
 
-def slacks(A, lam, j, x0):
+def slacks(A, lam, j, x0, x=None):
+    """round-off allowances for residual norms / energies (recurred vs true residual: O(eps |A| max|x_k|))"""
     al = np.abs(lam)
     kappa = al.max() / max(al.min(), 1e-3)
     xs = np.linalg.lstsq(A, j, rcond=None)[0]
-    sx = np.linalg.norm(xs) + np.sqrt(kappa) * np.linalg.norm(x0 - xs) + np.linalg.norm(x0) + 1e-300
+    sx = max(np.linalg.norm(xs), np.linalg.norm(x0), 0. if x is None else np.linalg.norm(x)) + 1e-300
     nb = np.linalg.norm(j)
-    sg = 1e3 * EPS * kappa * (nb + al.max() * sx) + 1e-300
-    sE = 1e3 * EPS * kappa * (nb * sx + al.max() * sx * sx) + 1e-300
+    sg = 1e3 * EPS * (nb + al.max() * sx) + 1e-300
+    sE = 1e3 * EPS * (nb * sx + al.max() * sx * sx) + 1e-300
     return sg, sE, kappa
